@@ -52,6 +52,7 @@ method will return ``True``.
 from itertools import repeat
 
 from whoosh.compat import izip
+from whoosh.system import emptybytes
 from whoosh.compat import abstractmethod
 
 
@@ -501,7 +502,7 @@ class ListMatcher(Matcher):
     def all_items(self):
         values = self._values
         if values is None:
-            values = repeat('')
+            values = repeat(emptybytes)
 
         return izip(self._ids, values)
 
@@ -527,7 +528,7 @@ class ListMatcher(Matcher):
 
             return v
         else:
-            return ''
+            return emptybytes
 
     def value_as(self, astype):
         decoder = self._format.decoder(astype)
